@@ -72,6 +72,31 @@ def run(ctx):
         n += 1
         ctx.saw(b)
         where = ctx.where(b, s["sp"])
+        # the range (and every adaptor stacked on it) is consumed once, by whatever builds the address set: nothing takes items out
+        # of it on the side (`log::debug!("{:?} to {:?}", hosts.next(), hosts.next_back())` does, when debug logging is on)
+        chain, cur = set(), (s["p"][0] if len(s["p"]) == 1 else None)
+        for _ in range(8):
+            if cur is None:
+                break
+            chain.add(cur)
+            nxt = None
+            for b2, t2 in b.calls():
+                if t2["args"] and op_place(t2["args"][0]) == (cur,) and len(t2["dest"]) == 1 and "Iterator" in (callee_name(t2) or "") + str(t2["callee"].get("decl")):
+                    nxt = t2["dest"][0]
+            for b2, i2, s2 in b.stmts():
+                if s2.get("rv") and s2["rv"]["k"] == "use" and op_place(s2["rv"]["op"]) == (cur,) and len(s2["p"]) == 1:
+                    nxt = s2["p"][0]
+            cur = nxt
+        sipped = [P.rel(s2["sp"]) for b2, i2, s2 in b.stmts() if s2.get("rv") and s2["rv"]["k"] == "ref" and s2["rv"].get("bk") == "mut" and
+                  len(s2["rv"]["place"]) == 1 and s2["rv"]["place"][0] in chain]
+        # (a `for` loop over it is one consumer: one mutable borrow, in the loop; an adaptor chain handed to collect / extend is one
+        # consumer: no mutable borrow at all)
+        byvalue = [1 for b2, t2 in b.calls() for a_ in t2["args"][:1] if op_place(a_) and op_place(a_)[0] in chain and len(op_place(a_)) == 1 and
+                   not (len(t2["dest"]) == 1 and t2["dest"][0] in chain)]
+        if len(sipped) + len(byvalue) <= 1:
+            sipped = []
+        ctx.check(not sipped, "R1", "host-range:%s:consumed-only-by-the-pool" % (b.id.split("::")[-2] if b.kind == "closure" else b.id.split("::")[-1]), where,
+                  "the host-range iterator is borrowed mutably at %s: items taken there never reach the pool" % (sipped or "-"))
         st = affine(f["start"], _is_shl_size)
         en = affine(f["end"], _is_shl_size)
         tag = b.id.split("::")[-2] if b.kind == "closure" else b.id.split("::")[-1]
